@@ -472,7 +472,7 @@ fn wide_vectors(m: &Small, alpha: &[i64]) -> Vec<Vec<f64>> {
     let mut cw = 0u64;
     // codewords spread over the code: single information-position patterns folded through rows
     for mask in [0u64, 0x5, 0x2a, 0x333, 0xfff, 0x9249] {
-        let w = mask & ((1u64 << n) - 1);
+        let w = mask & if n >= 64 { u64::MAX } else { (1u64 << n) - 1 };
         if m.syndrome_ok(w) {
             bases.push(w);
         } else {
@@ -838,6 +838,11 @@ pub fn run(run: &Run) -> i32 {
         for (name, m) in [
             ("wide2x12", Small::from_rows(12, &[&[0, 1, 2, 3, 4, 5, 6, 7, 8], &[2, 3, 4, 5, 6, 7, 8, 9, 10, 11]])),
             ("wide3x20", Small::from_rows(20, &[&[0, 1, 2, 3, 4, 5, 6, 7, 8, 9, 10, 11, 12, 13, 14, 15, 16], &[3, 5, 7, 9, 11, 13, 15, 17, 19], &[1, 2, 3, 4, 5, 6, 7, 8, 9, 10, 11, 12, 13, 14, 15, 17, 18, 19]])),
+            // degrees just past 32 and at 64 (the widest a 64-bit row mask can hold)
+            ("wide1x33", Small { r: 1, n: 33, rows: vec![(1u64 << 33) - 1] }),
+            ("wide2x34", Small { r: 2, n: 34, rows: vec![(1u64 << 32) - 1, ((1u64 << 33) - 1) << 1] }),
+            ("wide2x64", Small { r: 2, n: 64, rows: vec![u64::MAX, ((1u64 << 33) - 1) << 10] }),
+            ("tall33x2", Small { r: 33, n: 2, rows: vec![3u64; 33] }),
         ] {
             for k in if run.thorough() { vec![0, 1, 2, 3] } else { vec![1, 2] } {
                 work.push((Case { m: m.clone(), mname: name.to_string(), order: scrambled(&m, k) }, if run.thorough() { a5.clone() } else { a3.clone() }));
